@@ -69,6 +69,12 @@ def dirty_rows(info):
     return res
 
 
+def shared_factory_state(dirty):
+    """rows of the factory itself, or of a WithConfig, with a write / foreign call on shared memory"""
+    return [d for d in dirty if d["kind"] == "factory" or d["type"] in ("mechanismsFactory", "mechanismRepository")
+            or d["method"] == "WithConfig"]
+
+
 def trusted_list(name):
     src = open(os.path.join(vlib.LEAN, "HeimdallModel", "Model", "Footprint.lean")).read()
     body = src.split("def %s : List String := [" % name, 1)[1].split("]", 1)[0]
@@ -120,6 +126,20 @@ def behaves_like_reference(case, gr, handle):
     return same, differ
 
 
+def earlier_creations(case, i):
+    """number of creations for the same catalogue entry before operation i (a plain `create`)"""
+    op = case["ops"][i]
+    if op.get("op") != "create":
+        return 0
+    n = 0
+    for o in case["ops"][:i]:
+        if o["op"] == "create" and (o["kind"], o["id"]) == (op["kind"], op["id"]):
+            n += 1
+        elif o["op"] == "par":
+            n += sum(1 for cr in o.get("creates") or [] if (cr["kind"], cr["id"]) == (op["kind"], op["id"]))
+    return n
+
+
 def explain(case, i, a, b, ob, gr, handle, what_op):
     """why the answers for an object handed out / an operation differ: (text, property level)"""
     if b.get("changed"):
@@ -136,6 +156,13 @@ def explain(case, i, a, b, ob, gr, handle, what_op):
         return (f"{what_op}: the object answered differently from the same configuration loaded on its own", True)
     if b.get("par_ok") is False:
         return (f"{what_op}: concurrent executions answered differently from the same executions done alone", True)
+    if a.get("st") == "config" and b.get("st") == "ok" and earlier_creations(case, i):
+        return (f"{what_op}: a rule-level config the mechanism refuses (when it is the first one the factory sees) was "
+                f"accepted after {earlier_creations(case, i)} earlier creation(s) for the same catalogue entry: the rule "
+                "got a variant although its own config is no legal override", True)
+    if a.get("st") == "ok" and b.get("st") == "config" and earlier_creations(case, i):
+        return (f"{what_op}: a rule-level config the mechanism accepts was refused after "
+                f"{earlier_creations(case, i)} earlier creation(s) for the same catalogue entry", True)
     return (f"{what_op}: implementation {json.dumps(b, sort_keys=True)[:300]} ≠ model "
             f"{json.dumps(a, sort_keys=True)[:300]}", False)
 
@@ -261,8 +288,12 @@ def run(R):
         R.violation("harness does not build against the repository", {"build_log": log[-3000:]}, no_input=True)
         return
     corpus = vlib.load_corpus(PID)
-    n, ncold = (140, 30) if R.tier == "quick" else (4000, 800)
+    n, ncold, nlook = (132, 28, 48) if R.tier == "quick" else (4000, 800, 1200)
     cases = corpus + [gen_mech.gen_case(R.rng) for _ in range(n)] + [gen_mech.gen_cold_case(R.rng) for _ in range(ncold)]
+    # look-alike overrides: one factory creates, for the same catalogue entry, variants from configs that differ in type
+    # or structure but print alike (some of them refused by the type's decoder), in any order
+    look = [gen_mech.gen_lookalike_case(R.rng) for _ in range(nlook)]
+    cases += look
     model, impl = run_both(exe, cases, env=env)
 
     stats = collections.Counter()
@@ -340,6 +371,21 @@ def run(R):
                                      "kind": "history"}, no_input=False)
 
     dirty = dirty_rows(info)
+    # The static footprint reports state that the creations of one factory share (a map / sync.Map / cache field written
+    # by mechanismsFactory.Create* or by a WithConfig) and the stream above shows nothing concrete: what such state can
+    # do to "each rule observes the catalogue configuration overlaid with its OWN overrides" is to hand a rule the
+    # variant of an earlier one.  Try exactly those histories: every type x every look-alike family x every ordered
+    # pair of members.
+    searched = 0
+    if shared_factory_state(dirty) and not concrete:
+        grid = gen_mech.lookalike_grid(R.rng)
+        searched = len(grid)
+        gm, gi = run_both(exe, grid, env=env)
+        for c, m, g in zip(grid, gm, gi):
+            j = judge(c, m, g)
+            if j is not None:
+                (concrete if j[1] else structural).append((c, m, g, j))
+        cases += grid
     for c, m, g, j in concrete[:3]:
         what, _, i, details = j
         small = shrink(exe, c, True, env=env) if i is not None else c
@@ -387,7 +433,9 @@ def run(R):
                 "a creation that produced a variant; distinct by (mechanism type, keys of the override, created during a "
                 "batch or not, reference fields replaced)",
         "known_finding_hits": dict(R.known_hits),
-        "cases": len(cases), "corpus_cases": len(corpus), "creates_by_type": dict(by_type),
+        "cases": len(cases), "corpus_cases": len(corpus), "lookalike_cases": len(look),
+        "lookalike_grid_cases_searched_because_of_dirty_factory_footprint": searched,
+        "creates_by_type": dict(by_type),
         "creates_by_outcome": dict(by_status), "executions_by_outcome": dict(exec_err),
         "behaviour_keys": len(behaviour), "model_stats": dict(stats), "race_detector": race,
         "footprint_rows": len(info.get("entries", [])), "footprint_functions_analysed": info.get("functions_analysed"),
